@@ -20,7 +20,7 @@ CONSTANTS EctpU, RpU, A1U, A2U,   \* association instances that may exist
           Modes1, ModesO,         \* server answers: for p1 / other profiles
           QuerySet                \* "full" | "core" | "scoping"
 
-VARIABLE W
+VARIABLES W, steps    \* steps: number of association instances added
 
 (*------------------ universes used by the configurations -----------------*)
 R4 == {"r1", "r2", "r3", "r4"}
@@ -39,6 +39,14 @@ EctpDeep == {"p2"} \X R4
 RpDeep == {<<"p1", "p2">>}
 ADeep == Oriented(R4)
 ADeepBoth == Pairs(R4)
+(* "chain": the association instances of 1-hop and 2-hop scoping scenarios  *)
+(* (p1 component of p2 in either direction; scoping instances r1, r5 : S;  *)
+(* A2 towards r2 : M and - wrong class - r3 : C; A1 from r2 to r3 : C,     *)
+(* r4 : C2, r6 : C and directly from r1 to r4)                             *)
+EctpChain == {"p2"} \X {"r1", "r5"}
+RpChain == {<<"p1", "p2">>, <<"p2", "p1">>}
+A2Chain == {<<"r1", "r2">>, <<"r2", "r5">>, <<"r1", "r3">>}
+A1Chain == {<<"r2", "r3">>, <<"r4", "r2">>, <<"r1", "r4">>, <<"r2", "r6">>}
 AllModes == {"impl", "unsup", "err"}
 OnlyUnsup == {"unsup"}
 OnlyImpl == {"impl"}
@@ -80,16 +88,17 @@ ASSUME PrintT(<<"QUERIES", QueriesFull>>)
 
 CmU == {cm \in [Profiles -> AllModes] :
           cm["p1"] \in Modes1 /\ \A p \in Profiles \ {"p1"} : cm[p] \in ModesO}
-Init == \E cm \in CmU : W = [EmptyWorld EXCEPT !.cm = cm]
+Init == steps = 0 /\ \E cm \in CmU : W = [EmptyWorld EXCEPT !.cm = cm]
 Size == Cardinality(W.ectp) + Cardinality(W.rp) + Cardinality(W.a1)
         + Cardinality(W.a2)
 Next ==
   /\ Size < MaxEdges
+  /\ steps' = steps + 1
   /\ \/ \E e \in EctpU \ W.ectp : W' = [W EXCEPT !.ectp = @ \cup {e}]
      \/ \E e \in RpU \ W.rp : W' = [W EXCEPT !.rp = @ \cup {e}]
      \/ \E e \in A1U \ W.a1 : W' = [W EXCEPT !.a1 = @ \cup {e}]
      \/ \E e \in A2U \ W.a2 : W' = [W EXCEPT !.a2 = @ \cup {e}]
-Spec == Init /\ [][Next]_W
+Spec == Init /\ [][Next]_<<W, steps>>
 
 ImplRefinesReq == \A Q \in Queries : ImplOutcome(W, Q) \in Adm(W, Q)
 ReqTotal == \A Q \in Queries : Adm(W, Q) # {}
